@@ -53,7 +53,7 @@ theorem replay_total (env : Env) (hpm : ∀ b, Graceful (env.parseMove b)) (htps
 
 /-- every `Next` call from a state the iterator can be in keeps that state well-formed and does not panic -/
 theorem next_total (env : Env) (it : Iter) (hinv : it.Inv) :
-    NoPanic (it.next env) ∧ ∀ it' b, it.next env = .ok (it', b) → it'.Inv := by
+    NeverPanics (it.next env) ∧ ∀ it' b, it.next env = .ok (it', b) → it'.Inv := by
   rcases next_cases env it hinv with ⟨a, ha, ainv, _, _⟩ | ⟨a, ha, ainv⟩ | ⟨s, p, m, hs, _⟩
   · rw [ha]; exact ⟨fun s h => (by cases h), fun it' b h => (by cases h; exact ainv)⟩
   · rw [ha]; exact ⟨fun s h => (by cases h), fun it' b h => (by cases h; exact ainv)⟩
@@ -70,18 +70,18 @@ theorem instParseMove_graceful : ∀ b, Graceful (Inst.parseMove b) := by
   · exact graceful_illegal _
 
 /-- an environment for the examples: the transcribed move functions, a `ParseTPS` that rejects everything -/
-def exEnv : Env :=
+def ptnExEnv : Env :=
   { parseMove := Inst.parseMove, formatMove := Inst.formatMove,
     parseTPS := fun _ => .error (.illegal "no TPS"), basis := Array.replicate 64 0#64 }
 
-example : ∀ b, Graceful (exEnv.parseMove b) := instParseMove_graceful
-example : ∀ b, Graceful (exEnv.parseTPS b) := fun _ => graceful_illegal _
+example : ∀ b, Graceful (ptnExEnv.parseMove b) := instParseMove_graceful
+example : ∀ b, Graceful (ptnExEnv.parseTPS b) := fun _ => graceful_illegal _
 
 /-- the lone `{` (a panic before `fixes/C13-ptn-comment`) is an error -/
-example : parsePTN exEnv [123] = .error (.illegal "unterminated comment") := by rfl
+example : parsePTN ptnExEnv [123] = .error (.illegal "unterminated comment") := by rfl
 
 /-- `[Size "9"]` followed by a move (a panic before `fixes/C13-ptn-size`): parsed, and replay is an error -/
-example : ∃ e, replay exEnv [91, 83, 105, 122, 101, 32, 34, 57, 34, 93, 10, 49, 46, 32, 97, 49] 0 .none = .error (.illegal e) :=
+example : ∃ e, replay ptnExEnv [91, 83, 105, 122, 101, 32, 34, 57, 34, 93, 10, 49, 46, 32, 97, 49] 0 .none = .error (.illegal e) :=
   ⟨_, by rfl⟩
 
 /-! ### chat lines and weights JSON: the glue around `regexp` / `encoding/json` -/
